@@ -306,6 +306,30 @@ def run(facts, res):
                               "condition such as `the object exists already` fails for an update record that precedes its creation record and the staged "
                               "edit is lost on replay", rp.loc(rp.blocks[l.edge[0]].term.line))
         res.floor("G4", "record-length branches in replay_stage", n4c, 2)
+        # G4d: an update record (three elements) is replayed as the child of the revision it names: every tree insertion under the
+        # arity-3 test passes `Some(previous)` as the parent and a revision built on that previous revision - never a parentless
+        # revision with a constant index (an update re-rooted as a creation has another identifier than the staged one and becomes a
+        # second root once the real history arrives)
+        n4d = 0
+        for s_ in _is(facts, rp, lambda t: t.callee.target() in ("revisiontree::RevisionTree::add", "revisiontree::RevisionTree::unvalidated_add")):
+            is3 = any(l.kind == "cmp" and l.term[1] == "Eq" and l.truth is True and
+                      any(x[0] == "const" and x[1] == "int" and x[2] == 3 for x in (l.term[2], l.term[3])) for l in s_.lits)
+            if not is3 or len(s_.args) < 3:
+                continue
+            n4d += 1
+            par = s_.args[2]
+            has_some = any(x[0] == "agg" and x[2] == "Some" for x in walk(par))
+            has_none = any(x[0] == "agg" and x[2] == "None" for x in walk(par))
+            rev_ok = not any(x[0] == "call" and callee_name(x) == "new" and x[4] is not None and "Revision" in (x[4].path or "") and len(x[2]) >= 3 and
+                             any(y[0] == "agg" and y[2] == "None" for y in walk(x[2][2])) for x in walk(s_.args[1]))
+            ok = has_some and not has_none and rev_ok
+            res.instance("G4", "replay_stage: an update record is inserted under its recorded parent (Some(prev): %s, revision built on prev: %s)" % (
+                has_some and not has_none, rev_ok), s_.loc())
+            if not ok:
+                res.violation("G4", "replay_stage|update-record-replayed-without-parent",
+                              "replay_stage can insert the revision of an update record without its recorded parent (or rebuilt as a parentless revision): "
+                              "the replayed identifier differs from the staged one, and the object gets a second root when its history arrives", s_.loc())
+        res.floor("G4", "insertions of update records in replay_stage", n4d, 1)
 
     # G4b: the consumers of record lists (whose order comes from a hash map) insert every record unconditionally:
     # no insertion may depend on what earlier records already put into the tree
